@@ -1,6 +1,4 @@
 package sim
 
-func oracleC02(r *Result) {}
 func oracleC09(r *Result) {}
-func oracleC11(r *Result) {}
 func oracleC15(r *Result) {}
